@@ -321,13 +321,13 @@ def check_C14(ctx, rep):
         q, ni = expm1_quarter_ref(fx, z, frac)
         ehalf = V(mk("call", EH, cast("FloatToInt", "f64", "i32", y).t), "TF")
         res = RETV((q + 1.0) * ehalf)
-        bound = consts_compared_with(t, fx.N.norm(f64m("abs", z.hi).t)).get("lt", [None])[0]
+        bound = consts_compared_with(t, fx.N.norm(libm("fabs", z.hi).t)).get("lt", [None])[0]
         okB = bound is not None and 0.25 < bound <= 0.25 + 1.0 / 256.0
         rep.check(okB, "R35", "reduced-argument assertion window", "expm1-quarter-bound",
                   "expm1_quarter asserts |z.hi| < %r; the reduction guarantees only |z.hi| <= 1/4 + ulp and the table needs |z.hi| < 1/4 + 1/256" % bound, detail=bound)
         if not okB:
             return None
-        guarded = IF(fcmp("lt", f64m("abs", z.hi), bound),
+        guarded = IF(fcmp("lt", libm("fabs", z.hi), bound),
                      IF(mk("cmp", "le", "i32", mk("call", "core::num::<impl i32>::abs", ni), mk("const", "i32", 32)), res, PANIC), PANIC)
         return IF(fcmp("le", s.hi, L), RETV(ZERO_TF),
                   IF(fcmp("ge", s.hi, U), RETV(TFv(math.inf, 0.0)),
